@@ -48,8 +48,9 @@ class C06(scen.WorldProp):
             udi = rng.random() < 0.3
             ps = rng.choice([60, 90, 120])
             I = scen.interval(ps, N)
-            t0 = 1000.0 + rng.random()
             row_t = I * (N + 0.5)
+            two_touches = (not udi) and rng.random() < 0.35
+            t0 = 1000.0 + rng.random() + (6.5 * row_t + 6 if two_touches else 0)
             events = [call(t0, LOOK_TO)]
             go_t = None
             if not udi or rng.random() < 0.3:
@@ -58,11 +59,26 @@ class C06(scen.WorldProp):
                 if rng.random() < 0.4:
                     events.append(call(go_t + rng.uniform(0, 3) * row_t, GO))
             end = t0 + 3 + 14 * row_t
+            first_touch = None
+            if two_touches:
+                # an earlier touch in the same session that is cut short right after a Go: Stand next
+                # during the opening rows, Go in the last row before Wheatley stands, then this touch
+                k = rng.choice([1, 1, 3])
+                tA = t0 - (k + 1.6) * row_t - 3 - 1.5
+                stand_t = tA + 3 + (k - 0.5) * row_t + rng.uniform(-0.3, 0.3) * row_t
+                go1 = tA + 3 + (k + rng.uniform(0.05, 0.9)) * row_t
+                if tA > 1000.2:
+                    events = [call(tA, LOOK_TO), call(stand_t, scen.STAND), call(go1, GO)] + events
+                    first_touch = tA
+                    if spec["type"] == "pn" and rng.random() < 0.7:
+                        # backstroke start: the Go in backstroke row k leaves the counter armed when
+                        # Wheatley stands at the next handstroke
+                        spec["start_index"] = rng.choice([1, -1, 3])
             sc = {"start": 1000.0, "end": end, "tower_size": N, "events": events,
                   "bot": scen.bot_cfg(spec, up_down_in=udi),
                   "rhythm": scen.rhythm_cfg(rng.choice(["wait", "regression"]), inertia=0.5, peal_speed=ps,
                                             gap=rng.choice([0.0, 1.0, 2.0]))}
-            yield {"k": "world", "scenario": sc, "go": go_t, "t0": t0}
+            yield {"k": "world", "scenario": sc, "go": go_t, "t0": t0, "first_touch": first_touch}
 
     def nontrivial(self, req, reply):
         N = req["scenario"]["tower_size"]
@@ -75,6 +91,10 @@ class C06(scen.WorldProp):
             return f"crash: main={reply['crashed']} handlers={reply['handler_crashes']}"
         N = sc["tower_size"]
         spec = sc["bot"]["gen"]
+        if req.get("first_touch") is not None:
+            # judge the touch that follows the last Look To (the earlier one only sets the scene)
+            reply = dict(reply, strikes=[s for s in reply["strikes"] if scen.b2f(s[0]) >= req["t0"]],
+                         obs=[o for o in reply["obs"] if scen.b2f(o[0]) >= req["t0"]])
         rows = scen.rows_from_strikes(reply, N)
         if not rows:
             return None
